@@ -20,7 +20,7 @@ RULE = ("plan = helper x kind (bool, int |x| ≤ 2**40, float, date, datetime, s
         "(optionally NA-stripped) list, documented defaults for short groups, missing propagation for numeric reductions, mode "
         "ties -> first occurrence; tolerance rel 1e-9 / abs 1e-12. Non-trivial: a non-default argument, or a single-element or "
         "all-missing group, or a mode tie, or a missing value present. Distinct = plan hash.")
-CASES = {"quick": 2500, "thorough": 24000}
+CASES = {"quick": 3500, "thorough": 24000}
 TOL = (1e-9, 1e-12)
 
 ALL = ["all", "any", "count", "count_unique", "first", "last", "nth", "min", "max", "mode", "mean", "median", "quantile",
@@ -31,7 +31,9 @@ POOLS = {
     "d": [None, "2020-01-01", "2020-01-02", "1969-12-31"],
     "t": [None, "2020-01-01T00:00:00.000001", "2020-01-01T12:00:00", "1969-12-31T23:59:59"],
     "s": ["", "a", "b", "ab", "é"],
+    "td": [None, 0, 1, -5, 86400],
 }
+TD_HELPERS = ["count", "count_unique", "first", "last", "nth", "min", "max", "mode", "sum"]
 DEFAULTS = {"drop_na": {"count": False, "count_unique": False, "first": False, "last": False, "nth": False}}
 MISSING = "<missing>"
 
@@ -40,7 +42,10 @@ MISSING = "<missing>"
 def _plan(draw, max_len):
     # helper first (uniform over the 16), then a kind it accepts
     h = draw(st.sampled_from(ALL))
-    kind = draw(st.sampled_from(["f", "f", "i", "b", "d", "t", "s"] if h in ORD else ["f", "f", "i", "b"]))
+    kinds = ["f", "f", "i", "b", "d", "t", "s"] if h in ORD else ["f", "f", "i", "b"]
+    if h in TD_HELPERS:
+        kinds = kinds + ["td"]               # timedelta: accepted by the order statistics and by sum
+    kind = draw(st.sampled_from(kinds))
     n = draw(st.one_of(st.sampled_from([0, 1, 2]), st.integers(0, max_len)))
     pool = list(POOLS[kind])
     if kind == "f" and h in ORD:
@@ -49,6 +54,10 @@ def _plan(draw, max_len):
     if narrow:
         pool = pool[:3]
     ngroups = 2
+    if kind in ("f", "i") and h in ("std", "var", "mean", "sum", "median", "quantile") and draw(st.integers(0, 4)) == 0:
+        # a large common offset with a small spread: where one-pass formulas cancel catastrophically
+        pool = [1e9 + 1, 1e9 + 2, 1e9 + 3, 1e9 + 3] if kind == "f" else [10**8 + 1, 10**8 + 2, 10**8 + 4]
+        ngroups = draw(st.integers(0, 1))
     if h == "mode" and draw(st.integers(0, 3)):
         # tie patterns such as [1, 2, 2, 1] need few distinct values in few, larger groups
         nn = [v for v in pool if v == v and v is not None and v != ""]
@@ -57,6 +66,11 @@ def _plan(draw, max_len):
         n = max(n, draw(st.integers(4, max(4, max_len))))
     vals = [draw(st.sampled_from(pool)) for _ in range(n)]
     groups = [draw(st.integers(0, ngroups)) for _ in range(n)]
+    if n and kind in ("f", "d", "t", "s", "td") and draw(st.integers(0, 3)) == 0:
+        # one whole group missing (not necessarily the first one)
+        g = draw(st.sampled_from(sorted(set(groups))))
+        na = {"f": gen.NAN, "s": ""}.get(kind)
+        vals = [na if gg == g else v for v, gg in zip(vals, groups)]
     args = {}
     if h not in ("all", "any") and draw(st.integers(0, 2)):
         args["drop_na"] = draw(st.booleans())
@@ -68,7 +82,9 @@ def _plan(draw, max_len):
         args["q"] = draw(st.sampled_from([0, 0.1, 0.25, 0.5, 0.9, 1]))
     if h in ("std", "var") and draw(st.booleans()):
         args["ddof"] = draw(st.sampled_from([0, 1]))
-    return {"kind": kind, "helper": h, "vals": vals, "groups": groups, "args": args}
+    # further helpers on the same column as later summaries of the same aggregate call
+    extra = draw(st.lists(st.sampled_from(["first", "last", "nth1", "count", "min", "max"]), max_size=2, unique=True))
+    return {"kind": kind, "helper": h, "vals": vals, "groups": groups, "args": args, "extra": extra}
 
 
 def strategy(tier):
@@ -120,10 +136,12 @@ def ref(h, kind, vals, args):
         for v, k in zip(xs, ids):
             if c[k] == m:
                 return val(v)
-    fl = [float(v) for v in xs]
+    fl = [float(v) for v in xs] if kind != "td" else []
     if h == "sum":
         if na_in:
             return MISSING
+        if kind == "td":
+            return ("D", sum(int(v) for v in xs) * 1000000)
         return math.fsum(fl) if kind == "f" else sum(int(v) for v in xs)
     if h in ("mean", "median", "quantile"):
         if len(fl) < 1 or na_in:
@@ -154,6 +172,8 @@ def ambiguous(h, kind, vals, args):
 
 def same(r, e):
     rc = build.acell(r, True) if not isinstance(r, (list, tuple)) else r
+    if isinstance(e, tuple) and e[0] == "D" and e[1] == 0 and rc in (0, ("D", 0)):
+        return True                               # sum of no timedeltas is the documented default 0
     if e == MISSING:
         return rc is None
     if rc is None:
@@ -229,7 +249,22 @@ def check(plan, ctx):
             ctx.excl("stated ambiguity in a group")
             return
         data = di.DataFrame({"g": np.array(groups, dtype=np.int64).view(di.DataFrameColumn), "x": build.column(kind, vals)})
-        out = ctx.call(f"aggregate(y={h}('x'))", lambda: data.group_by("g").aggregate(y=_call_grp(h, args)))
+        extras = {"first": lambda: di.first("x"), "last": lambda: di.last("x"), "nth1": lambda: di.nth("x", 1),
+                  "count": lambda: di.count("x"), "min": lambda: di.min("x"), "max": lambda: di.max("x")}
+        ex_args = {"first": ("first", {}), "last": ("last", {}), "nth1": ("nth", {"index": 1}), "count": ("count", {}),
+                   "min": ("min", {}), "max": ("max", {})}
+        later = {f"z{j}": extras[e]() for j, e in enumerate(plan.get("extra", []))}
+        out = ctx.call(f"aggregate(y={h}('x'), ...)", lambda: data.group_by("g").aggregate(y=_call_grp(h, args), **later))
+        for j, e in enumerate(plan.get("extra", [])):
+            if f"z{j}" not in later:
+                continue
+            eh, ea = ex_args[e]
+            for g, r in zip([int(x) for x in np.asarray(out["g"])], list(np.asarray(out[f"z{j}"]))):
+                want = ref(eh, kind, by[g], ea)
+                if not same(r, want):
+                    raise Violation("a later summary of the same aggregate call differs from the textbook statistic "
+                                    "(state left behind by an earlier helper?)", first_helper=h, args=args, later=e,
+                                    kind=kind, group=by[g], got=r, want=want)
         gs = [int(x) for x in np.asarray(out["g"])]
         if gs != sorted(by):
             raise Violation("aggregate: groups differ", got=gs, want=sorted(by))
